@@ -199,3 +199,141 @@ theorem selectPath_spec' (h : VersionHistory) (vs : List Version) (hinv : Inv h)
         exact List.getLast?_eq_none_iff.1 hu
 
 end Ruma.Endpoint
+namespace Ruma.Spec.Endpoint
+
+theorem newestOffered_some (vs : List Version) : ∀ (l : List (Version × Path)) (b : Version × Path),
+    newestOffered vs l = some b →
+    b ∈ l ∧ offers vs b.1 = true ∧ ∀ e ∈ l, offers vs e.1 = true → e.1 ≤ b.1
+  | [], b, h => by simp [newestOffered] at h
+  | e :: t, b, h => by
+    unfold newestOffered at h
+    cases hr : newestOffered vs t with
+    | some b' =>
+      rw [hr] at h
+      simp only at h
+      obtain ⟨hm, ho, hmax⟩ := newestOffered_some vs t b' hr
+      split at h
+      · rename_i hc
+        simp only [Bool.and_eq_true, decide_eq_true_eq] at hc
+        cases h
+        refine ⟨by simp, hc.1, ?_⟩
+        intro e' he' ho'
+        rcases List.mem_cons.1 he' with rfl | ht
+        · exact Nat.le_refl _
+        · exact Nat.le_of_lt (Nat.lt_of_le_of_lt (hmax e' ht ho') hc.2)
+      · rename_i hc
+        cases h
+        refine ⟨List.mem_cons_of_mem _ hm, ho, ?_⟩
+        intro e' he' ho'
+        rcases List.mem_cons.1 he' with rfl | ht
+        · simp only [Bool.and_eq_true, decide_eq_true_eq, not_and, Nat.not_lt] at hc
+          exact hc ho'
+        · exact hmax e' ht ho'
+    | none =>
+      rw [hr] at h
+      simp only at h
+      split at h
+      · rename_i hc
+        cases h
+        refine ⟨by simp, hc, ?_⟩
+        intro e' he' ho'
+        rcases List.mem_cons.1 he' with rfl | ht
+        · exact Nat.le_refl _
+        · have := newestOffered_none vs t hr e' ht
+          rw [this] at ho'; cases ho'
+      · cases h
+where
+  newestOffered_none (vs : List Version) : ∀ (l : List (Version × Path)),
+      newestOffered vs l = none → ∀ e ∈ l, offers vs e.1 = false
+    | [], _, e, he => by simp at he
+    | e :: t, h, e', he' => by
+      unfold newestOffered at h
+      cases hr : newestOffered vs t with
+      | some b' => rw [hr] at h; simp only at h; split at h <;> cases h
+      | none =>
+        rw [hr] at h
+        simp only at h
+        split at h
+        · cases h
+        · rename_i hc
+          rcases List.mem_cons.1 he' with rfl | ht
+          · simpa using hc
+          · exact newestOffered_none vs t hr e' ht
+
+/-- The executable rule computes the declarative one (for any history). -/
+theorem select_selects (h : History) (vs : List Version) : Selects h vs (select h vs) := by
+  unfold select
+  cases hr : allRemoved h vs with
+  | true => simp only [if_true]; exact Selects.removed hr
+  | false =>
+    simp only [Bool.false_eq_true, if_false]
+    cases hn : newestOffered vs h.stable with
+    | some b =>
+      obtain ⟨hm, ho, hmax⟩ := newestOffered_some vs _ b hn
+      exact Selects.stable b.1 b.2 hr hm ho hmax
+    | none =>
+      have hnone := newestOffered_some.newestOffered_none vs _ hn
+      cases hu : h.unstable.getLast? with
+      | some p => exact Selects.unstable p hr hnone hu
+      | none => exact Selects.noPath hr hnone (List.getLast?_eq_none_iff.1 hu)
+
+theorem pairwise_inj : ∀ (l : List (Version × Path)), l.Pairwise (fun a b => a.1 ≠ b.1) →
+    ∀ x ∈ l, ∀ y ∈ l, x.1 = y.1 → x = y
+  | [], _, x, hx, _, _, _ => by simp at hx
+  | a :: t, hp, x, hx, y, hy, hxy => by
+    rw [List.pairwise_cons] at hp
+    rcases List.mem_cons.1 hx with rfl | hx' <;> rcases List.mem_cons.1 hy with rfl | hy'
+    · rfl
+    · exact absurd hxy (hp.1 y hy')
+    · exact absurd hxy.symm (hp.1 x hx')
+    · exact pairwise_inj t hp.2 x hx' y hy' hxy
+
+/-- The rule determines the selection when no version occurs twice among the stable paths. -/
+theorem selects_unique (h : History) (vs : List Version)
+    (hd : h.stable.Pairwise (fun a b => a.1 ≠ b.1)) (a b : Selection)
+    (ha : Selects h vs a) (hb : Selects h vs b) : a = b := by
+  cases ha with
+  | removed hr =>
+    cases hb with
+    | removed _ => rfl
+    | stable _ _ hr' => rw [hr] at hr'; cases hr'
+    | unstable _ hr' => rw [hr] at hr'; cases hr'
+    | noPath hr' => rw [hr] at hr'; cases hr'
+  | stable a p hr hm ho hmax =>
+    cases hb with
+    | removed hr' => rw [hr] at hr'; cases hr'
+    | stable a' p' _ hm' ho' hmax' =>
+      have h1 := hmax (a', p') hm' ho'
+      have h2 := hmax' (a, p) hm ho
+      have := pairwise_inj _ hd (a, p) hm (a', p') hm' (Nat.le_antisymm h2 h1)
+      cases this; rfl
+    | unstable _ _ hnone => have := hnone (a, p) hm; rw [ho] at this; cases this
+    | noPath _ hnone => have := hnone (a, p) hm; rw [ho] at this; cases this
+  | unstable p hr hnone hu =>
+    cases hb with
+    | removed hr' => rw [hr] at hr'; cases hr'
+    | stable a' p' _ hm' ho' _ => have := hnone (a', p') hm'; rw [ho'] at this; cases this
+    | unstable p' _ _ hu' => rw [hu] at hu'; cases hu'; rfl
+    | noPath _ _ he => rw [he] at hu; simp at hu
+  | noPath hr hnone he =>
+    cases hb with
+    | removed hr' => rw [hr] at hr'; cases hr'
+    | stable a' p' _ hm' ho' _ => have := hnone (a', p') hm'; rw [ho'] at this; cases this
+    | unstable p' _ _ hu' => rw [he] at hu'; simp at hu'
+    | noPath _ _ _ => rfl
+
+end Ruma.Spec.Endpoint
+
+namespace Ruma.Endpoint
+open Ruma.Spec.Endpoint
+
+/-- Model and executable rule agree on every history `VersionHistory::new` accepts. -/
+theorem selectPath_eq_select' (h : VersionHistory) (vs : List Version) (hinv : Inv h) :
+    (selectPath h vs).toSelection? = some (select (toSpec h) vs) := by
+  obtain ⟨s, hs, hsel⟩ := selectPath_spec' h vs hinv
+  rw [hs]
+  congr 1
+  refine selects_unique (toSpec h) vs ?_ _ _ hsel (select_selects _ _)
+  exact hinv.asc.imp (fun h => Nat.ne_of_lt h)
+
+end Ruma.Endpoint
